@@ -356,11 +356,11 @@ bool StateMachine::Impl::start()
     ++cb_level_;
     if (init_state->enter_action)
         init_state->enter_action(Event());
-    --cb_level_;
 
     //! 如果有子状态机，在启动子状态机
     if (curr_state_->sub_sm != nullptr)
         curr_state_->sub_sm->start();
+    --cb_level_;
 
     return true;
 }
@@ -403,10 +403,16 @@ bool StateMachine::Impl::run(Event event)
     //! 如果有子状态机且它还在运行，则给子状态机处理
     //! 子状态机终止并被停止后，事件由本状态机自己处理
     if (curr_state_->sub_sm != nullptr && curr_state_->sub_sm->isRunning()) {
+        //! 子状态机的动作函数里不允许回调本状态机
+        ++cb_level_;
         bool ret = curr_state_->sub_sm->run(event);
-        if (!curr_state_->sub_sm->isTerminated())
+        bool is_sub_terminated = curr_state_->sub_sm->isTerminated();
+        if (is_sub_terminated)
+            curr_state_->sub_sm->stop();
+        --cb_level_;
+
+        if (!is_sub_terminated)
             return ret;
-        curr_state_->sub_sm->stop();
     }
 
     StateID next_state_id = NULL_STATE_ID;
